@@ -17,7 +17,8 @@ from . import fs
 
 def change_offset_rewriter(orig_offset, new_offset, iterable):
     path_sep = os.path.sep
-    offset_len = len(orig_offset.rstrip(path_sep))
+    # entry locations are normalized, so measure the normalized spelling of the old offset
+    offset_len = len(normpath(orig_offset or path_sep).rstrip(path_sep))
     # localize it.
     npf = normpath
     for x in iterable:
